@@ -266,6 +266,12 @@ func (r *renderer) node(fb *fileBuf, n *Node, depth int) {
 			fb.w("*/")
 		}
 	}
+	// a comment after a block annotation on the keyword line
+	if n.Ann != "" && (annStyle == 1 || annStyle == 3 || annStyle == 4) {
+		if l.Choose("trail", 2) == 1 {
+			fb.w(" # c")
+		}
+	}
 	// trailing blanks / comment on the keyword line
 	if annStyle == 0 {
 		switch l.Choose("trail", 3) {
